@@ -22,6 +22,8 @@ if [ $# -eq 0 ]; then
   [ "$rctsv" -ne 0 ] && exit "$rctsv"
   /venv/bin/python "$here/tools/py2v_merge/main.py" --repo "${BIOM_REPO:-/repo}" --out "$here"; rcmerge=$?   # dispatch mode (tools/regen_merge.sh)
   [ "$rcmerge" -ne 0 ] && exit "$rcmerge"
+  /venv/bin/python "$here/tools/py2v_json/main.py" --repo "${BIOM_REPO:-/repo}" --out "$here"; rcjson=$?   # JSON writer (tools/regen_json.sh)
+  [ "$rcjson" -ne 0 ] && exit "$rcjson"
   [ "$rc1" -ne 0 ] && exit "$rc1"
   [ "$rc2" -ne 0 ] && exit "$rc2"
   exit "$rc3"
